@@ -1450,8 +1450,11 @@ const lateName = userBase + 8 // "u9": no generator uses it
 //	                                 position does not satisfy unless it already fires after u9: an
 //	                                 error return, or it has to move)       (case/4 mod 3)
 //	the highest other live user callback is removed.
-//	the main built-in, if the sequence left it a specified built-in (never removed), is registered again
+//	a built-in that was never removed and that no Register/Replace call (of the sequence or above) names
+//	in Before/After - the main built-in if it qualifies, else the first that does - is registered again
 //	                                 without a request (a plugin overriding it late)   (case/12 mod 2 = 1)
+//	                                 (a built-in that IS named would turn the requests naming it into requests
+//	                                 towards a several-entry name and move known witnesses to other classes)
 func lateCalls(p *pipeline, seq []step, caseNo int) []step {
 	m := model(p, seq)
 	var users []int
@@ -1491,8 +1494,21 @@ func lateCalls(p *pipeline, seq []step, caseNo int) []step {
 	if len(users) > 1 {
 		out = append(out, step{Op: opRemove, Name: uint8(users[len(users)-1]), Bef: none, Aft: none})
 	}
-	if ns := m[mainB]; (caseNo/12)%2 == 1 && ns.live && !ns.weak {
-		out = append(out, step{Op: opRegister, Name: uint8(mainB), Bef: none, Aft: none})
+	if (caseNo/12)%2 == 1 {
+		named := map[int]bool{}
+		for _, l := range [][]step{seq, out} {
+			for _, s := range l {
+				if s.Op != opRemove {
+					named[int(s.Bef)], named[int(s.Aft)] = true, true
+				}
+			}
+		}
+		for _, x := range append([]int{mainB}, p.full()...) {
+			if ns := m[x]; ns.live && !ns.weak && !named[x] {
+				out = append(out, step{Op: opRegister, Name: uint8(x), Bef: none, Aft: none})
+				break
+			}
+		}
 	}
 	return out
 }
@@ -2592,7 +2608,7 @@ var Engine = &core.Engine{
 	Rule: "one case = one registration sequence on one of the six pipelines (Create, Query, Update, Delete, Row, Raw), applied to a fresh gorm handle and followed by a real execution of the pipeline against SQLite, twice: with the built-ins wrapped by recording functions (B) and on the pristine registry with the built-ins seen through driver events and model hooks (A). " +
 		"Calls: Register, Before(t).Register, After(t).Register, Before(t).After(t').Register (both chain orders), Replace, Remove; registered names: canonical fresh names, names removed earlier, and user names that exist at that moment (second entry under one name; in the enumeration such a call carries at most one request); targets t: every built-in of the pipeline, every user name introduced so far, the next name to be introduced (forward reference / unknown), '*'; Replace/Remove names: built-ins, user names, an unknown name. " +
 		"Enumerated completely: all sequences of length 0..2 on every pipeline (quick and thorough); thorough adds all sequences of length 3 with the built-in alphabet reduced to {first, main, last} built-in on Create/Update/Delete (full on Query/Row/Raw). Also enumerated on every pipeline: the 150 'move' sequences of length 4 (register u1 and u2 with plain/Before/After constraints, remove one, register it again with other constraints) and the 2 376 'second entry' sequences of length 3..6 (a name x that exists - a user callback registered plain / Before / After a built-in / Before or After '*', or the main built-in - gets a second entry through Register or through Before/After(..).Replace, with a neighbour registered plain / Before(x) / After(x); or through Before(built-in).After(neighbour).Register / Before(neighbour).Replace - so that the request of the second entry is in some sequences already met by the position x has and in others not: the call then has to return an error or x has to move; then nothing | Remove(x) | Remove, Register again (plain / After(neighbour)) | Replace(x) | Replace, Remove | Before(neighbour).Remove(x) | third Register, Remove | a third entry After(neighbour) | a third entry Before(built-in) | a new callback registered After(x)). Also enumerated on every pipeline (n built-ins: 16*n*(n+1) sequences, 2 976 in all): a BUILT-IN x is given a second entry that carries a request, over the full built-in alphabet: Register(u1), then Before(t).Replace(x) | After(t).Replace(x) | Before(t).Register(x) | After(t).Register(x) for every built-in x and every t among the other built-ins, u1 and '*', then nothing | Remove(x) | Replace(x) | After(x).Register(u2). Also enumerated on every pipeline (32*n+2 sequences, 844 in all, numbered behind the random cases): a BUILT-IN x is registered again WITHOUT a request (a plugin overriding it), for every built-in x: nothing | Register(u1) | Before(x).Register(u1) | After(x).Register(u1), then Register(x), then nothing | Register(x) a third time | Replace(x) | Register(u2) | After(x).Register(u2) | Before(x).Register(u2) | Remove(neighbouring built-in) | Replace(neighbouring built-in); and every built-in of the pipeline registered again, in their own and in reverse order. Then random sequences of length 3..8 over 5 user names (forward and removed names as targets, unknown name, '*', remove-and-register-again moves, second entries under existing user and built-in names by Register or by a Replace carrying a request, Remove calls carrying a request): 5 000 quick / 300 000 thorough. " +
-		"Entry into the pipeline: after the healthy execution (Create with belongs-to and has-many / Preload+Find / Model.Updates / Select.Delete / Row or Rows / Exec) EVERY case executes the pipeline again on the same handle, once per entry, and each execution is held to the same model: (repeat) the same operation a second time; (failed-statement: the statement carries an error before the first callback runs) tx.AddError on a session handle, a Scope that adds an error, a *int as model/destination (Statement.Parse fails; not for Exec), a nil *Main (ErrInvalidValue), a transaction handle from a Begin that the driver failed [B]; (driver-fault) [B] a healthy statement with the driver failing the (1 + case mod 3)-th call it receives (begin / statement / commit, also those of nested association writes); (session) [B] a DryRun session, a handle from db.Begin() rolled back afterwards. [B] = only with the wrapped built-ins; the others also on the pristine registry, where a failed statement shows the stubs only. A problem that the healthy execution already has is not reported again; a new one gets the signature <class>@<entry group>. Then, in mode B, 1..3 late registration calls are made on the executed registry - a new name u9 is registered (by case mod 4: plain | Before(main built-in) | After(lowest live user callback) | Before(lowest live user callback)); the lowest live user callback is (by case/4 mod 3) Replace'd | registered again (a second entry made late) | registered again After(\"u9\") (a request its position normally contradicts: error return or move); the highest other live user callback is removed; (case/12 mod 2 = 1) the main built-in, if never removed, is registered again without a request - and the pipeline is executed once more, checked against the model of the sequence including those calls (plain signatures, suffixes computed over the whole sequence). " +
+		"Entry into the pipeline: after the healthy execution (Create with belongs-to and has-many / Preload+Find / Model.Updates / Select.Delete / Row or Rows / Exec) EVERY case executes the pipeline again on the same handle, once per entry, and each execution is held to the same model: (repeat) the same operation a second time; (failed-statement: the statement carries an error before the first callback runs) tx.AddError on a session handle, a Scope that adds an error, a *int as model/destination (Statement.Parse fails; not for Exec), a nil *Main (ErrInvalidValue), a transaction handle from a Begin that the driver failed [B]; (driver-fault) [B] a healthy statement with the driver failing the (1 + case mod 3)-th call it receives (begin / statement / commit, also those of nested association writes); (session) [B] a DryRun session, a handle from db.Begin() rolled back afterwards. [B] = only with the wrapped built-ins; the others also on the pristine registry, where a failed statement shows the stubs only. A problem that the healthy execution already has is not reported again; a new one gets the signature <class>@<entry group>. Then, in mode B, 1..3 late registration calls are made on the executed registry - a new name u9 is registered (by case mod 4: plain | Before(main built-in) | After(lowest live user callback) | Before(lowest live user callback)); the lowest live user callback is (by case/4 mod 3) Replace'd | registered again (a second entry made late) | registered again After(\"u9\") (a request its position normally contradicts: error return or move); the highest other live user callback is removed; (case/12 mod 2 = 1) a built-in that was never removed and that no Register/Replace call names in Before/After (the main built-in if it qualifies, else the first that does) is registered again without a request - and the pipeline is executed once more, checked against the model of the sequence including those calls (plain signatures, suffixes computed over the whole sequence). " +
 		"A name with several entries is held to: the handler handed over by the LAST call under the name (Register again, Replace carrying a request, or a later plain Replace) fires exactly once - in both observation modes, for user and built-in names (signatures stale-handler:registered-again, stale-handler:replace-request, stale-handler:multi-entry, not-once:missing:multi-entry; suffix :older-star when an older entry of the name carries a '*' request that the newest does not, :older-star:rewritten when the newest carries it too but another call names the callback) -, no handler twice, none after Remove, a handler replaced by a Replace (plain or carrying a request) does not fire next to the new one (replaced-ran:multi-entry), AND the named Before/After request of the call that made its newest entry holds (signatures side:before|after:multi-entry, :replace-request; :rewritten when another call names the callback or an earlier call under its name carried a named request); requests of other callbacks that name such a name are checked too (:multi-target). A BUILT-IN name with several entries that was never removed is, in addition, held to the built-in order: when exactly one handler of the name fires it fires between the nearest specified built-ins on either side, as the built-in did (builtin-order:registered-again when no call under the name carried a request, builtin-order:multi-entry / :replace-request otherwise); these requirements are left out when it is decided whether the requests are satisfiable, so the older classes keep their extension. " +
 		"Ordering violations are classified by whether an order satisfying everything requested exists (side:*) or not (contradiction-accepted:*: the statement then demands an error return). distinct = (pipeline, literal sequence); non-trivial = no call returned an error, the pipeline ran, and at least one Before/After constraint with a running target, one removal, one replacement or one name with several entries was checked against the firing order",
 	Assumptions: []string{
